@@ -29,6 +29,7 @@ func VH_C03_send() {
 		a.c.fragmentSize = 100
 	}
 	a.c.injectMessage(ValidMessage("?OTR Error: E"))
+	vhAnyAKEState(a.c)
 	text := vBytes("text", 3)
 	vhNoNUL(text)
 	out, err := a.c.Send(text)
